@@ -436,6 +436,10 @@ def c07(tier):
     for fmt, ch in _fmts(exe, tier, (3,)):
         if scen.major(fmt) != scen.SD2:
             gen_env.c07_scenarios(S, fmt, ch, RATE, 800, rng, nparts=2, Ts=["s", "i", "f", "d"])
+    # one byte encodings: their staging buffer holds 8192 items, one call above that against small pieces through every caller type
+    for fmt, ch in _fmts(exe, tier, (1,)):
+        if scen.sub(fmt) in (1, 5, 0x10, 0x11) and scen.major(fmt) != scen.SD2:
+            gen_env.c07_scenarios(S, fmt, ch, RATE, 9000, rng, nparts=2, Ts=["s", "i", "f", "d"])
     # float / double encodings through every caller type with calls larger than the staging buffers (PEAK bookkeeping per chunk)
     for fmt, ch in _fmts(exe, tier, (1, 2) if tier == "quick" else (1, 2, 3)):
         if scen.sub(fmt) in (6, 7) and scen.major(fmt) != scen.SD2:
